@@ -203,7 +203,7 @@ def c08_run(pid, tier, seed):
         scns += [S("un4", "un", 4, reps=3), S("um3", "um", 3, mults=(0, 1, 2), maxmult=2, reps=2),
                  S("uw3", "uw", 3, reps=2)]
     gh = vf.build_gh("o1")
-    mres, v = props_machine.run_scenarios(pid, scns, seed, gh)
+    mres, v = props_machine.run_scenarios(pid, scns, seed, gh, scope="C08")
     violations += v
     acov = props_algo.coverage_of(ares)
     mcov = props_machine.coverage_of(mres, scns)
